@@ -32,7 +32,9 @@ CONSTANTS DEV_CountUnwritten,    \* writeHeader reports one line for a field wit
           DEV_NoReset,           \* headerCount survives a render
           DEV_NoResetOnError,    \* headerCount survives a failed render
           DEV_FreshInnerBoundary,\* boundaries of nested multiparts are not cached between the two passes
-          DEV_CountSignaturePart \* the structure functions (hasAlt ...) count the signature part as a body part
+          DEV_CountSignaturePart,\* the structure functions (hasAlt ...) count the signature part as a body part
+          DEV_SkipUnsigned       \* WriteToSkipMiddleware renders without the signing pass and without the reset
+                                 \* (the code before fix c30a985; see DESIGN.md 11.2)
 
 VARIABLES hc, buf, signedc, emitted, bcache, gen, sigparts, inprog, rn, hx, phase
 svars == <<prog, pc, hc, buf, signedc, emitted, bcache, gen, sigparts, inprog, rn, hx, phase>>
@@ -87,8 +89,17 @@ SInit == /\ Init /\ prog.prog.smime.key # ""
 
 Frame(vs) == UNCHANGED vs
 
+Skipping == DEV_SkipUnsigned /\ rn <= Len(Ops) /\ Ops[rn] = "SkipMw"
+
+(* the deviating render path: no pre-render, no cut; what travels as "signed" is whatever an earlier render left *)
+SkipBegin ==
+  /\ pc = "built" /\ phase = "idle" /\ rn <= Len(Ops) /\ Skipping
+  /\ signedc' = Append(signedc, IF signedc = <<>> THEN <<<<"unsigned", 0, 0>>>> ELSE signedc[Len(signedc)])
+  /\ phase' = "fin" /\ hx' = 1
+  /\ UNCHANGED <<prog, pc, hc, buf, emitted, bcache, gen, sigparts, inprog, rn>>
+
 SignBegin ==
-  /\ pc = "built" /\ phase = "idle" /\ rn <= Len(Ops)
+  /\ pc = "built" /\ phase = "idle" /\ rn <= Len(Ops) /\ ~Skipping
   /\ phase' = "pre" /\ inprog' = TRUE /\ buf' = <<>> /\ hx' = 1
   /\ sigparts' = 0
   /\ UNCHANGED <<prog, pc, hc, signedc, emitted, bcache, gen, rn>>
@@ -128,12 +139,12 @@ FinEntity ==
 
 Reset ==
   /\ phase = "reset"
-  /\ hc' = IF DEV_NoReset \/ (DEV_NoResetOnError /\ Ops[rn] \in FailOps) THEN hc ELSE 0
+  /\ hc' = IF DEV_NoReset \/ (DEV_NoResetOnError /\ Ops[rn] \in FailOps) \/ Skipping THEN hc ELSE 0
   /\ rn' = rn + 1 /\ phase' = "idle"
   /\ pc' = IF rn = Len(Ops) THEN "done" ELSE pc
   /\ UNCHANGED <<prog, buf, signedc, emitted, bcache, gen, sigparts, inprog, hx>>
 
-SNext == SignBegin \/ PreHeader \/ PreEntity \/ Cut \/ FinHeader \/ FinEntity \/ Reset
+SNext == SignBegin \/ SkipBegin \/ PreHeader \/ PreEntity \/ Cut \/ FinHeader \/ FinEntity \/ Reset
 SSpec == SInit /\ [][SNext]_svars
 
 -----------------------------------------------------------------------------
@@ -141,7 +152,7 @@ RenderOK(i) == emitted[i] = <<<<"failed", 0, 0>>>> \/ signedc[i] = emitted[i]
 (* C08 at design level: every finished render emitted what was signed *)
 Verifies == \A i \in DOMAIN emitted : RenderOK(i)
 CounterClean == phase = "idle" => hc = 0
-OneSignature == sigparts <= 1 /\ (phase = "fin" => sigparts = 1)
+OneSignature == sigparts <= 1 /\ ((phase = "fin" /\ ~Skipping) => sigparts = 1)
 TypeOK == hc \in Nat /\ rn \in 1..(Len(Ops) + 1) /\ Len(signedc) <= Len(Ops) /\ Len(emitted) <= Len(signedc)
 
 SScenario == [prog |-> prog.prog, ops |-> prog.ops, roundtrip |-> FALSE,
